@@ -21,77 +21,303 @@ variable (close : J → J → Bool) (ms : Int)
 
 theorem inner_sound (ei : J) : ∀ (l : List J) (p : J × J), p ∈ inner close ms ei l →
     p.1 = ei ∧ p.2 ∈ l ∧ P close ms p.1 p.2 := by
-  sorry
+  intro l
+  induction l with
+  | nil => intro p h; simp [inner] at h
+  | cons ej rest ih =>
+    intro p h
+    unfold inner at h
+    split at h
+    · obtain ⟨a, b, c⟩ := ih p h; exact ⟨a, List.mem_cons_of_mem _ b, c⟩
+    · split at h
+      · obtain ⟨a, b, c⟩ := ih p h; exact ⟨a, List.mem_cons_of_mem _ b, c⟩
+      · split at h
+        · obtain ⟨a, b, c⟩ := ih p h; exact ⟨a, List.mem_cons_of_mem _ b, c⟩
+        · split at h
+          · rcases List.mem_cons.mp h with h | h
+            · subst h
+              refine ⟨rfl, by simp, ?_⟩
+              unfold P; simp_all
+            · obtain ⟨a, b, c⟩ := ih p h; exact ⟨a, List.mem_cons_of_mem _ b, c⟩
+          · obtain ⟨a, b, c⟩ := ih p h; exact ⟨a, List.mem_cons_of_mem _ b, c⟩
 
 theorem inner_complete (ei : J) : ∀ (l : List J) (ej : J), ej ∈ l → P close ms ei ej →
     (ei, ej) ∈ inner close ms ei l := by
-  sorry
+  intro l
+  induction l with
+  | nil => intro ej h; simp at h
+  | cons x rest ih =>
+    intro ej hmem hP
+    unfold inner
+    rcases List.mem_cons.mp hmem with h | h
+    · subst h
+      obtain ⟨h1, h2, h3, h4⟩ := hP
+      rw [if_neg h2, if_neg h3, if_neg h1, if_pos h4]
+      simp
+    · have := ih ej h hP
+      split
+      · exact this
+      · split
+        · exact this
+        · split
+          · exact this
+          · split
+            · exact List.mem_cons_of_mem _ this
+            · exact this
 
 /-- **C12 (soundness)**: every reported pair satisfies the three conditions. -/
 theorem scan_sound : ∀ (l : List J) (p : J × J), p ∈ scan close ms l →
     p.1 ∈ l ∧ p.2 ∈ l ∧ P close ms p.1 p.2 := by
-  sorry
+  intro l
+  induction l with
+  | nil => intro p h; simp [scan] at h
+  | cons ei rest ih =>
+    intro p h
+    simp only [scan, List.mem_append] at h
+    rcases h with h | h
+    · obtain ⟨a, b, c⟩ := inner_sound close ms ei rest p h
+      exact ⟨by rw [a]; simp, List.mem_cons_of_mem _ b, c⟩
+    · obtain ⟨a, b, c⟩ := ih p h
+      exact ⟨List.mem_cons_of_mem _ a, List.mem_cons_of_mem _ b, c⟩
 
 /-- **C12 (completeness)**: every pair of rows that satisfies the conditions is reported. -/
 theorem scan_complete : ∀ (pre : List J) (a : J) (mid : List J) (b : J) (post : List J),
     P close ms a b → (a, b) ∈ scan close ms (pre ++ a :: (mid ++ b :: post)) := by
-  sorry
+  intro pre
+  induction pre with
+  | nil =>
+    intro a mid b post hP
+    simp only [List.nil_append, scan, List.mem_append]
+    left
+    exact inner_complete close ms a _ b (by simp) hP
+  | cons x pre ih =>
+    intro a mid b post hP
+    simp only [List.cons_append, scan, List.mem_append]
+    right
+    exact ih a mid b post hP
+
+theorem scan_mem_split : ∀ (l : List J) (a b : J), (a, b) ∈ scan close ms l →
+    ∃ pre mid post, l = pre ++ a :: (mid ++ b :: post) := by
+  intro l
+  induction l with
+  | nil => intro a b h; simp [scan] at h
+  | cons ei rest ih =>
+    intro a b h
+    simp only [scan, List.mem_append] at h
+    rcases h with h | h
+    · obtain ⟨e, m, _⟩ := inner_sound close ms ei rest _ h
+      simp only at e m
+      subst e
+      obtain ⟨mid, post, rfl⟩ := List.append_of_mem m
+      exact ⟨[], mid, post, rfl⟩
+    · obtain ⟨pre, mid, post, rfl⟩ := ih a b h
+      exact ⟨ei :: pre, mid, post, rfl⟩
 
 /-- **C12 (exactly)**: on a table without repeated rows, `(a, b)` is reported iff `a` precedes
 `b` in the table and the pair satisfies the conditions. -/
 theorem scan_iff (l : List J) (hnd : l.Nodup) (a b : J) :
     (a, b) ∈ scan close ms l ↔
       (∃ pre mid post, l = pre ++ a :: (mid ++ b :: post)) ∧ P close ms a b := by
-  sorry
+  constructor
+  · intro h
+    refine ⟨scan_mem_split close ms l a b h, ?_⟩
+    exact (scan_sound close ms l (a, b) h).2.2
+  · rintro ⟨⟨pre, mid, post, rfl⟩, hP⟩
+    exact scan_complete close ms pre a mid b post hP
 
 /-- the pair predicate is symmetric when closeness is -/
 theorem P_symm (hc : ∀ a b, close a b = close b a) (a b : J) :
     P close ms a b ↔ P close ms b a := by
-  sorry
+  have key : ∀ a b, P close ms a b → P close ms b a := by
+    intro a b ⟨h1, h2, h3, h4⟩
+    exact ⟨fun h => h1 h.symm, h3, h2, by rw [← hc]; exact h4⟩
+  exact ⟨key a b, key b a⟩
 
 /-- closeness from a symmetric distance table is symmetric -/
 theorem closeBy_symm (dsq : Int → Int → Rat) (m : Rat) (hd : ∀ i j, dsq i j = dsq j i) (a b : J) :
     closeBy dsq m a b = closeBy dsq m b a := by
-  sorry
+  unfold closeBy
+  rw [hd a.o b.o, hd a.o b.d, hd a.d b.o, hd a.d b.d]
+  cases decide (dsq b.o a.o < m) <;> cases decide (dsq b.d a.o < m) <;>
+    cases decide (dsq b.o a.d < m) <;> cases decide (dsq b.d a.d < m) <;> rfl
+
+theorem inner_eq_filter (ei : J) : ∀ l : List J,
+    inner close ms ei l = (l.filter (fun ej => decide (P close ms ei ej))).map (fun ej => (ei, ej)) := by
+  intro l
+  induction l with
+  | nil => rfl
+  | cons ej rest ih =>
+    unfold inner
+    rw [List.filter_cons]
+    by_cases h1 : ej.t0 - ei.t1 > ms
+    · have hn : ¬ P close ms ei ej := fun h => h.2.1 h1
+      simp only [h1, hn, if_true, decide_false, ih]; simp
+    · by_cases h2 : ei.t0 - ej.t1 > ms
+      · have hn : ¬ P close ms ei ej := fun h => h.2.2.1 h2
+        simp only [h1, h2, hn, if_true, if_false, decide_false, ih]; simp
+      · by_cases h3 : ei.atom = ej.atom
+        · have hn : ¬ P close ms ei ej := fun h => h.1 h3
+          simp only [h1, h2, h3, hn, if_true, if_false, decide_false, ih]; simp
+        · by_cases h4 : close ei ej = true
+          · have hp : P close ms ei ej := ⟨h3, h1, h2, h4⟩
+            simp only [h1, h2, h3, h4, hp, if_true, if_false, decide_true, ih, List.map_cons]
+          · have hn : ¬ P close ms ei ej := fun h => h4 h.2.2.2
+            simp only [h1, h2, h3, h4, hn, if_false, decide_false, ih]; simp
+
+theorem inner_nodup (ei : J) (l : List J) (hnd : l.Nodup) : (inner close ms ei l).Nodup := by
+  rw [inner_eq_filter]
+  have hf : (l.filter (fun ej => decide (P close ms ei ej))).Nodup :=
+    List.Pairwise.filter _ hnd
+  exact List.Pairwise.map _ (fun a b hab h => hab (by injection h)) hf
 
 /-- **C12 (once)**: no pair is reported twice … -/
 theorem scan_nodup (l : List J) (hnd : l.Nodup) : (scan close ms l).Nodup := by
-  sorry
+  induction l with
+  | nil => simp [scan]
+  | cons ei rest ih =>
+    rw [List.nodup_cons] at hnd
+    simp only [scan]
+    rw [List.nodup_append]
+    refine ⟨inner_nodup close ms ei rest hnd.2, ih hnd.2, ?_⟩
+    intro p hp q hq hpq
+    subst hpq
+    have h1 := (inner_sound close ms ei rest p hp).1
+    have h2 := (scan_sound close ms rest p hq).1
+    rw [h1] at h2
+    exact hnd.1 h2
 
 /-- … and never in both orders: each unordered pair is reported at most once. -/
 theorem scan_no_swap (l : List J) (hnd : l.Nodup) (a b : J) :
     (a, b) ∈ scan close ms l → (b, a) ∉ scan close ms l := by
-  sorry
+  induction l with
+  | nil => intro h; simp [scan] at h
+  | cons ei rest ih =>
+    rw [List.nodup_cons] at hnd
+    intro h1 h2
+    simp only [scan, List.mem_append] at h1 h2
+    rcases h1 with h1 | h1 <;> rcases h2 with h2 | h2
+    · obtain ⟨e1, m1, _⟩ := inner_sound close ms ei rest _ h1
+      obtain ⟨e2, _, _⟩ := inner_sound close ms ei rest _ h2
+      simp only at e1 m1 e2
+      subst e1
+      subst e2
+      exact hnd.1 m1
+    · obtain ⟨e1, _, _⟩ := inner_sound close ms ei rest _ h1
+      obtain ⟨_, m2, _⟩ := scan_sound close ms rest _ h2
+      simp only at e1 m2
+      subst e1
+      exact hnd.1 m2
+    · obtain ⟨_, m1, _⟩ := scan_sound close ms rest _ h1
+      obtain ⟨e2, _, _⟩ := inner_sound close ms ei rest _ h2
+      simp only at e2 m1
+      subst e2
+      exact hnd.1 m1
+    · exact ih hnd.2 h1 h2
 
 /-- forgetting the position number -/
 def strip (j : J) : J := { j with id := 0 }
 
+theorem insertSorted_perm (x : J) : ∀ l : List J, (insertSorted x l).Perm (x :: l) := by
+  intro l
+  induction l with
+  | nil => exact List.Perm.refl _
+  | cons y ys ih =>
+    unfold insertSorted
+    split
+    · exact ((List.Perm.cons y ih).trans (List.Perm.swap x y ys))
+    · exact List.Perm.refl _
+
+theorem foldl_insert_perm : ∀ (l acc : List J),
+    (l.foldl (fun acc x => insertSorted x acc) acc).Perm (acc ++ l) := by
+  intro l
+  induction l with
+  | nil => intro acc; simp
+  | cons x xs ih =>
+    intro acc
+    simp only [List.foldl_cons]
+    refine (ih _).trans ?_
+    refine ((insertSorted_perm x acc).append_right xs).trans ?_
+    simpa using (List.perm_middle (a := x) (l₁ := acc) (l₂ := xs)).symm
+
 /-- sorting only permutes the rows … -/
 theorem sortJ_perm (l : List J) : ((sortJ l).map strip).Perm (l.map strip) := by
-  sorry
+  unfold sortJ
+  simp only [List.map_map]
+  have h1 : (strip ∘ fun (p : J × Nat) => { p.1 with id := p.2 }) = strip ∘ Prod.fst := by
+    funext p; rfl
+  rw [h1, ← List.map_map, List.zipIdx_map_fst]
+  exact (foldl_insert_perm l []).map strip
 
 /-- … and numbers them by position, so the sorted table has no repeated rows. -/
 theorem sortJ_ids (l : List J) : (sortJ l).map (·.id) = List.range l.length := by
-  sorry
+  unfold sortJ
+  simp only [List.map_map]
+  have h1 : ((fun (j : J) => j.id) ∘ fun (p : J × Nat) => { p.1 with id := p.2 }) = Prod.snd := by
+    funext p; rfl
+  rw [h1, List.zipIdx_map_snd, (foldl_insert_perm l []).length_eq, List.range_eq_range']
+  simp
+
+theorem nodup_of_map {α β : Type} (f : α → β) : ∀ l : List α, (l.map f).Nodup → l.Nodup := by
+  intro l
+  induction l with
+  | nil => intro _; exact List.nodup_nil
+  | cons a t ih =>
+    intro h
+    rw [List.map_cons, List.nodup_cons] at h
+    rw [List.nodup_cons]
+    exact ⟨fun hm => h.1 (List.mem_map_of_mem hm), ih h.2⟩
 
 theorem sortJ_nodup (l : List J) : (sortJ l).Nodup := by
-  sorry
+  apply nodup_of_map (·.id)
+  rw [sortJ_ids]
+  exact List.nodup_range
 
 /-- under the (stop, start) order, for jumps with `t0 < t1` and a non-negative window, the second
 time guard (`event_i.start − event_j.stop > max_steps`) can never fire for a later row. -/
 theorem second_guard_dead (ei ej : J) (hms : 0 ≤ ms) (hi : ei.t0 < ei.t1) (hord : ei.t1 ≤ ej.t1) :
     ¬ (ei.t0 - ej.t1 > ms) := by
-  sorry
+  omega
 
 /-- **C12 (counts)**: solo + collective = total number of jumps. -/
 theorem solo_plus_coll (n : Nat) (pairs : List (J × J)) (h : (touched pairs).length ≤ n) :
     nSolo n pairs + nColl n pairs = n := by
-  sorry
+  unfold nColl nSolo
+  omega
+
+theorem nodup_eraseDups : ∀ l : List Nat, l.eraseDups.Nodup := by
+  intro l
+  generalize hn : l.length = n
+  induction n using Nat.strongRecOn generalizing l with
+  | _ n ih =>
+    cases l with
+    | nil => simp
+    | cons a t =>
+      rw [List.eraseDups_cons, List.nodup_cons]
+      constructor
+      · rw [List.mem_eraseDups, List.mem_filter]
+        simp
+      · have hlen : (t.filter fun b => !b == a).length < n := by
+          have := List.length_filter_le (fun b => !b == a) t
+          simp at hn; omega
+        exact ih _ hlen _ rfl
 
 /-- the rows touched by pairs of a table of `n` rows numbered `0..n-1` are at most `n` -/
 theorem touched_le (l : List J) (hid : l.map (·.id) = List.range l.length) :
     (touched (scan close ms l)).length ≤ l.length := by
-  sorry
+  have hnd : (touched (scan close ms l)).Nodup := nodup_eraseDups _
+  have hsub : touched (scan close ms l) ⊆ List.range l.length := by
+    intro x hx
+    unfold touched at hx
+    rw [List.mem_eraseDups, List.mem_flatMap] at hx
+    obtain ⟨p, hp, hx⟩ := hx
+    obtain ⟨m1, m2, _⟩ := scan_sound close ms l p hp
+    rw [← hid]
+    simp only [List.mem_cons, List.not_mem_nil, or_false] at hx
+    rcases hx with rfl | rfl
+    · exact List.mem_map_of_mem m1
+    · exact List.mem_map_of_mem m2
+  have := hnd.length_le_of_subset hsub
+  simpa using this
 
 /-! ## history: defect D9 (repaired by a711a25) -/
 
